@@ -51,6 +51,6 @@ def install():
     from traffic_weaver import weaver
     if _installed or not HAVE_ICONTRACT:
         return _installed
-    icontract.invariant(well_formed, error=PostBroken)(weaver.Weaver)
+    icontract.invariant(well_formed, error=PostBroken, enabled=True)(weaver.Weaver)     # also under python -O
     _installed = True
     return True
